@@ -46,7 +46,7 @@ CLAIMS['C10'] = dict(
          "(T2) every function that resizes the underlying vector asks for n+1 elements and writes the NUL at element n through the "
          "re-read base pointer on every path, and nothing else changes the count; (T3) positional operations touch the buffer only "
          "under the documented bound (pos <= size for insert, pos < size otherwise) and abort on the other edge; (T4) str() never "
-         "returns NULL. Equality with a reference string and agreement of find/compare with the C library are NOT decided.",
+         "returns NULL; (T5) the wide instantiation scales every byte count handed to memcpy/memmove/memset by the character size. Equality with a reference string and agreement of find/compare with the C library are NOT decided.",
     technique="no-wrap obligations by dominating-facts entailment over inlined LLVM IR; dominance / post-dominance rules; both template instantiations")
 
 CLAIMS['C14'] = dict(
@@ -65,7 +65,7 @@ CLAIMS['C16'] = dict(
          "every public entry point that allocates (whole-library inlined), on every path on which an allocation is known to have "
          "failed nothing is stored into the container afterwards (path-sensitive, with a store/load model so a re-read capacity is "
          "the unchanged one); (F3) cstl_map_insert returns -1 on that path; (F5) every block allocated on a path is committed, "
-         "returned or freed before the return (half-built bookkeeping block). Whole-script leak audits and multi-call fault "
+         "returned or freed before the return (half-built bookkeeping block); (F6) hash resize touches nothing of the table before the bucket allocation it depends on. Whole-script leak audits and multi-call fault "
          "sequences are NOT explored.",
     technique="dominating facts per allocation site + path-sensitive typestate with store/load model over inlined LLVM IR")
 
@@ -94,7 +94,7 @@ CLAIMS['C03'] = dict(
          "geometries and examines both buckets when a rehash is pending and returns the pending-geometry bucket, the current one "
          "otherwise (path-sensitive, inlined); (L3) the cleaner relocates each node by its own key with the pending geometry, detaches "
          "the chain first and marks the bucket clean on every dirty path; (L4) the element count moves exactly with chain insertions "
-         "and splices; (L5) resize forces the old rehash, then flips the clean bit, then records the pending geometry, new buckets "
+         "and splices; (L5) resize forces the old rehash, then flips the clean bit, then records the pending geometry on every path (a flip is never left without a pending rehash), adopts a geometry without sweeping only on the very first resize, new buckets "
          "empty and clean; (L6) find calls the caller's visit only under key equality; (L7) the bucket-array byte size cannot wrap. "
          "That the sweep's arithmetic visits every bucket, chain contents over histories, and swap are NOT decided.",
     technique="role discovery by effect + path-sensitive typestate over inlined LLVM IR + dominance/ordering rules + no-wrap obligations")
@@ -104,7 +104,7 @@ CLAIMS['C12'] = dict(
          "re-anchors both lists to their own sentinel in the empty and the non-empty case, reading the links after the bitwise swap; "
          "(D3) concat splices only distinct lists, adds the size once and re-initialises the source; (D4) foreach binds next for FWD "
          "and prev for REV, never touches a node after its visit, and propagates the first non-zero result (path-sensitive); (D5) "
-         "size is adjusted exactly once per primitive. The link correctness of reverse / sort / merge and equality with a reference "
+         "size is adjusted exactly once per primitive; (D6) reverse links its two cursors directly only under the adjacency test. The link correctness of reverse / sort / merge and equality with a reference "
          "sequence are NOT decided.",
     technique="documentation-contract rule (AST + IR return values) + dominating facts + typestate over LLVM IR")
 CLAIMS['C13'] = dict(
@@ -112,7 +112,7 @@ CLAIMS['C13'] = dict(
          "function that writes a node link also maintains the same list's tail pointer (or re-initialises that list); (N3) swap "
          "re-anchors an empty list's tail to its own head link, reading the count after the swap; (N4) foreach reads the successor "
          "before the visit and propagates the first non-zero result; (N5) count is adjusted exactly once per primitive, concat adds "
-         "once and re-initialises the source. That reverse / sort / merge produce the right order is NOT decided.",
+         "once and re-initialises the source; (N6) the tail is only ever set to the head link, another tail, or a node known to exist. That reverse / sort / merge produce the right order is NOT decided.",
     technique="documentation-contract rule (AST + IR return values) + field-effect rule + dominating facts + typestate over LLVM IR")
 
 CLAIMS['C01'] = dict(
@@ -122,7 +122,7 @@ CLAIMS['C01'] = dict(
          "foreach binds (left,right) for FWD and (right,left) for REV and returns the walker's result, the adapter forwards "
          "element/order/result unchanged; (W3) size is written only as 0 or size+/-1, exactly once per insert/unlink path; (W4) insert "
          "and find agree on comparison argument order and descent direction; (W5) erase unlinks exactly the node find returned, only "
-         "when non-NULL, and returns it; (W6) a non-NULL find result is the node that compared equal. That relinking in the two-child "
+         "when non-NULL, and returns it; (W6) a non-NULL find result is the node that compared equal; (W7) insert links the new node only into a slot just read as NULL. That relinking in the two-child "
          "erase case and in rotations preserves the multiset and the order is NOT decided (heap-shape reasoning).",
     technique="path-sensitive typestate over the recursive walker + sibling agreement + dominating facts over LLVM IR")
 CLAIMS['C15'] = dict(
